@@ -309,6 +309,10 @@ fn le_add_pow2(key: &[u8], j: usize, neg: bool) -> Vec<u8> {
     v
 }
 
+pub fn share_id_of_activation(base: u32, k: usize) -> u32 {
+    base.wrapping_add((k as u32).wrapping_mul(0x0001_0000))
+}
+
 pub fn ts_request(version: u64, nego: Option<&[u8]>, auth_info: Option<&[u8]>, pub_key_auth: Option<&[u8]>) -> Vec<u8> {
     let mut items = vec![der::explicit(0, &der::integer(version))];
     if let Some(n) = nego {
@@ -517,8 +521,13 @@ impl RefServer {
         }
     }
 
+    /// share id of the current (or next) activation: a server assigns a fresh share id on every reactivation
+    pub fn current_share_id(&self) -> u32 {
+        share_id_of_activation(self.p.share_id, self.activations_done)
+    }
+
     fn demand_active_bytes(&self) -> Vec<u8> {
-        self.sdi(&share::demand_active(self.p.share_id, 1002, &self.p.source_descriptor, &self.caps(), 0))
+        self.sdi(&share::demand_active(self.current_share_id(), 1002, &self.p.source_descriptor, &self.caps(), 0))
     }
 
     fn connect_response_bytes(&self) -> Vec<u8> {
@@ -820,7 +829,7 @@ impl RefServer {
                 let names = ["synchronize", "control_cooperate", "control_request", "font_list"];
                 self.record(names[k as usize], unit, pending, tls);
                 if k == 3 {
-                    let (sid, uid) = (self.p.share_id, self.p.user_id);
+                    let (sid, uid) = (self.current_share_id(), self.p.user_id);
                     let s1 = self.sdi(&share::synchronize(sid, 1002, uid));
                     self.emit("sync", s1, &mut out);
                     let s2 = self.sdi(&share::control(sid, 1002, share::CTRLACTION_COOPERATE, 0, 0));
@@ -868,7 +877,7 @@ impl RefServer {
             }
             Phase::Active => {
                 if self.activations_done <= self.p.reactivations {
-                    let d = self.sdi(&share::deactivate_all(self.p.share_id, 1002));
+                    let d = self.sdi(&share::deactivate_all(share_id_of_activation(self.p.share_id, self.activations_done - 1), 1002));
                     self.emit("deactivate_all", d, &mut out);
                     let b = self.demand_active_bytes();
                     self.emit("demand_active", b, &mut out);
